@@ -72,13 +72,15 @@ def check_rolling(vals, valid, window, nodata, dtype, p, sub, check_prefix_of=No
     cs = np.concatenate([np.zeros((N, 1), np.int64), np.cumsum(v, axis=1)], axis=1)
     cc = np.concatenate([np.zeros((N, 1), np.int64), np.cumsum(valid.astype(np.int64), axis=1)], axis=1)
     bad_total = 0
+    nd_out = float(np.asarray(nodata).astype(out.dtype))      # the sentinel as the output dtype (float32) can echo it
     for i in range(window - 1, n):
         s = cs[:, i + 1] - cs[:, i + 1 - window]
         c = cc[:, i + 1] - cc[:, i + 1 - window]
         o = out[:, i].astype(np.float64)
-        ok_full = (c == window) & (o == s)
-        ok_none = (c == 0) & (o == nodata)
-        ok_mixed = (c > 0) & (c < window) & ((o == s) | (o == nodata))
+        s_out = s.astype(out.dtype).astype(np.float64)
+        ok_full = (c == window) & (o == s_out)
+        ok_none = (c == 0) & (o == nd_out)
+        ok_mixed = (c > 0) & (c < window) & ((o == s_out) | (o == nd_out))
         bad = ~(ok_full | ok_none | ok_mixed)
         if bad.any():
             for j in np.nonzero(bad)[0][:5]:
@@ -360,6 +362,40 @@ def mean_grp_accessor(ctx, ab, maxn):
     ctx.sample(sub, {"cube": "all words over {ND,a,b} of length 2..%d as pixels" % maxn})
 
 
+def big_sentinels(ctx):
+    """Sentinels that need more than 24 significant bits (the customary int32 fill values) on int32 / int64 data."""
+    st = _stats()
+    sub = "big_sentinels"
+    for nd in (2147483647, -2147483647, 16777217, 99999999, -2147483648):
+        for n in (1, 2, 3, 4, 5):
+            idx = sse.word_indices(4, n)
+            N = idx.shape[0]
+            valid = idx != 0
+            vals = sse.render(idx, [nd, -2, 0, 7]).astype(np.int64)
+            for dtype in ("int32", "int64"):
+                for w in range(1, n + 1):
+                    check_rolling(vals, valid, w, nd, dtype, ctx, sub)
+                    ctx.count(sub, evaluations=N, nontrivial=int((~valid).any(axis=1).sum()))
+                for k in (1, 2):
+                    if k > n:
+                        continue
+                    for labels in sse.surjective_labelings(n, k):
+                        out = np.asarray(st.mean_grp(vals.astype(dtype), np.asarray(labels, "int16"), k, nd)).astype(np.float64)
+                        g = np.asarray(labels)
+                        exp = np.empty((N, n))
+                        for grp in range(k):
+                            m = g == grp
+                            c = valid[:, m].sum(axis=1)
+                            sm = np.where(valid[:, m], vals[:, m], 0).sum(axis=1)
+                            exp[:, m] = np.where(c > 0, sm / np.maximum(c, 1), float(np.float32(nd)))[:, None]
+                        bad = np.abs(out - exp) > 4 * np.spacing(np.abs(exp).astype(np.float32)).astype(np.float64)
+                        ctx.count(sub, evaluations=N)
+                        for j in np.nonzero(bad.any(axis=1))[0][:3]:
+                            ctx.violation(sub, {"kernel": "mean_grp", "word": vals[j].tolist(), "labels": list(labels), "dtype": dtype, "nodata": nd}, {"kind": "bigsent"},
+                                          f"mean_grp({vals[j].tolist()} {dtype}, groups={list(labels)}, nodata={nd}) -> {out[j].tolist()}, expected {exp[j].tolist()}")
+    ctx.sample(sub, {"sentinels": [2147483647, -2147483647, 16777217, 99999999, -2147483648], "dtypes": ["int32", "int64"]})
+
+
 def falsy_nodata(ctx):
     """nodata = 0 passed as an explicit argument (a falsy value) must be honoured exactly like any other nodata."""
     import pandas as pd
@@ -453,12 +489,16 @@ def run(ctx):
     mean_grp_accessor(ctx, ab, 5 if ctx.thorough() else 4)
     long_family(ctx)
     falsy_nodata(ctx)
+    big_sentinels(ctx)
 
 
 def replay(sub, case, p):
     kind = case["kind"]
     if kind == "mg_float":
         _mean_grp_task((case["n"], [3, 10], [-9999, 255, 4], ["float32"], 3), p)
+        return
+    if kind == "bigsent":
+        big_sentinels(p)
         return
     if kind == "falsy":
         falsy_nodata(p)
